@@ -147,6 +147,12 @@ def afterLoad (hash : Nat → Nat) (f : Frame) : Pc :=
   | [] => afterMatch f
   | ms => .cmp f ms
 
+/-- after a key comparison that failed: the next tag match of the group, or the end of the group -/
+def afterCmp (f : Frame) (ms : List Nat) : Pc :=
+  match ms with
+  | [] => afterMatch f
+  | _ => .cmp f ms
+
 def setPc (s : State) (t : Nat) (p : Pc) : State := { s with pc := upd s.pc t p }
 
 /-- One action of thread `t`. -/
@@ -166,9 +172,7 @@ def stepThread (hash : Nat → Nat) (s : State) (t : Nat) : Option (State × Lab
     let nd := s.node f.tb
     let idx := (f.base + j) % f.n
     let p := if nd.tab.keyAt idx == some f.e.1 then .ret f (.slot f.tb idx false)
-             else match ms with
-               | [] => afterMatch f
-               | _ => .cmp f ms
+             else afterCmp f ms
     some (setPc s t p, .fence (if f.kind.isFind then ordFindFence else ordEmplaceFence))
   | .cas f i =>
     let nd := s.node f.tb
